@@ -9,13 +9,13 @@ PROPS = {}
 
 PROPS["C14"] = dict(
     name="c14", thorough_rounds=8, sources=["props/c14.cpp"], engine="enumerator",
-    builds=[("asan", "native"), ("asan", "noasm"), ("asan", "noti")],
-    builds_thorough=[("asan", "native"), ("asan", "noasm"), ("asan", "noti"), ("asan", "portable"), ("plain", "native")],
+    builds=[("asan", "native"), ("asan", "noasm"), ("asan", "noti"), ("asan", "nosimd")],
+    builds_thorough=[("asan", "native"), ("asan", "noasm"), ("asan", "noti"), ("asan", "portable"), ("asan", "nosimd"), ("plain", "native")],
     level="exploration",
     rule=("Enumerated: every length 0..130 (thorough 0..200) x {random pair, equal, all-00/ff, every single-bit difference, "
           "ms-vs-ls byte disagreement, carry/borrow chain of every length at every offset}; exhaustive all 65536 1-byte operand pairs "
           "and all 2-byte operands (unary) / 2-byte a x structured b (binary); random+carry-heavy operands at the asm fast-path lengths "
-          "8/12/16/24/32/64; memzero every (offset,len) <= 80. Every increment/add/sub/compare case is repeated on operands that end right before or start right after a PROT_NONE page, and the 0xa5 fill around each ordinary operand is verified after the call (the fast paths are inline assembly, invisible to ASan). Oracle: byte-vector big-integer model. Non-trivial = length >= 1 and "
+          "8/12/16/24/32/64; memzero every (offset,len) <= 80. Every increment/add/sub/compare case is repeated on operands that end right before or start right after a PROT_NONE page, and the 0xa5 fill around each ordinary operand is verified after the call (the fast paths are inline assembly, invisible to ASan). The nosimd build also removes explicit_bzero / memset_s / explicit_memset / weak symbols from the configuration, so the last-resort volatile loop of sodium_memzero is the code under test there. Oracle: byte-vector big-integer model. Non-trivial = length >= 1 and "
           "operands not a plain random pair; distinct = (build, sub-property, op, length, class, position)."),
     exhaustive_axes="lengths 0..130, bit positions, chain (offset,length), all 1-byte operand pairs, all 2-byte unary operands, memzero (off,len)",
     assumptions=ASSUME_COMMON + ["operand contents that are not enumerated come from a splitmix64 stream seeded by VERIF_SEED"],
@@ -144,7 +144,7 @@ PROPS["C04"] = dict(
           "all 64x65 (digest length, key length) pairs of BLAKE2b; 60 sampled messages up to 256 KiB. rapidcheck (seed from VERIF_SEED, shrinking): 24000 update histories - lists of 0..14 chunk sizes drawn from "
           "block-related values {0,1,15..17,31..33,63..65,111..113,127..129,255..257} and arbitrary sizes - fed through init/update.../final for every streaming API, key lengths 0..200 for HMAC/HKDF. "
           "Poly1305 carries: three message blocks SOLVED so that the unreduced accumulator with r=1 is exactly 2^130-5+k, 2^130+k, 2^130+2^129+k, 2^129+2^128+2^127+k (k=-6..8) x 13 r values (1, 2, r_max, 0, 2^k) x "
-          "s in {0, 2^128-1, random} x every final-block length 0..17; all-ff/all-00 messages of 0..20 blocks + 0..31 tail bytes. Verify functions: correct tag accepted, every single-bit flip of the tag rejected. "
+          "s in {0, 2^128-1, random} x every final-block length 0..17; all-ff/all-00 messages of 0..20 blocks + 0..31 tail bytes; limb-saturation vectors: r = 1 and blocks (V, 0, 0, 0) whose wrap at 2^130 carries into limbs that are all ones, for 26-bit (donna32) and 44-bit (donna64) limbs, every limb position, every mask. Verify functions: correct tag accepted, every single-bit flip of the tag rejected. "
           "KDFs: crypto_kdf subkey_len 0..80 (x ids 0, 1, 2^64-1, random), HKDF expand out_len 0..200, sampled to 255*hashlen and +-1 around it, ctx 0..100 incl. NULL; out-of-range generichash outlen/keylen. "
           "Oracle: ref/sha2.hpp, blake2b.hpp, poly1305.hpp (big-integer). Non-trivial = len>=1 and (>=2 non-empty chunks or keyed or non-default backend or crafted carry); distinct = (build, alg, len, key/out length, mask, chunk list)."),
     exhaustive_axes="message lengths 0..1100; BLAKE2b (outlen, keylen) grid; tag bit positions; kdf subkey lengths",
@@ -174,7 +174,7 @@ PROPS["C05"] = dict(
     builds_thorough=[("asan", "native"), ("asan", "noti"), ("asan", "portable"), ("asan", "noasm")],
     level="exploration",
     rule=("rapidcheck generators (seeded from VERIF_SEED, shrinking) draw (scalar, point) from structured classes: points {random, the 7 low-order u values, p-24..p+24, 2^255-40..2^255-1, 0..4000, 2^k, p-2^k, "
-          "all-ones limbs in radix 2^51 / 2^25.5 / 2^64 with one limb cleared or perturbed}, each with bit 255 randomly set; scalars {random, all 32 patterns of the five clamped bits, 0, all-ff, 2^k, small, sparse}. "
+          "all-ones limbs in radix 2^51 / 2^25.5 / 2^64 with one limb cleared or perturbed, a low-order encoding whose last one or two bytes are replaced by arbitrary values (nearly blocklisted)}, each with bit 255 randomly set; every case is drawn at rapidcheck's nominal size, so each class and position is equally likely from the first case on; scalars {random, all 32 patterns of the five clamped bits, 0, all-ff, 2^k, small, sparse}. "
           "16000 scalarmult / base / DH-symmetry cases and 6000 beforenm (HSalsa20 / HChaCha20) / kx (cross-equality, BLAKE2b-512(shared||client_pk||server_pk), NULL rx/tx, adversarial low-order server keys) / "
           "seeded key-pair cases per build, plus a deterministic sweep of every low-order encoding x both top bits x all 32 clamp patterns. Each case runs under CPU masks {all = sandy2x AVX assembly, -avx = ref10} "
           "in builds native (51-bit limbs) and noti (25.5-bit limbs). Oracle: RFC 7748 Montgomery ladder on big integers (ref/x25519.hpp): return 0 and exact value when the result is non-zero, -1 exactly when it is all-zero. "
@@ -212,8 +212,8 @@ PROPS["C07"] = dict(
           "k*L+-1, 2^252..2^255 +-3, all-ones, all clamp-bit patterns}. Ristretto255 (9000): valid encodings (also of coset representatives P+T), negative s, s>=p, high bit, small, random; is_valid/add/sub/"
           "scalarmult/base/from_hash against RFC 9496. Scalar arithmetic (40000): add/sub on reduced inputs incl. L-1, mul/negate/complement/invert/reduce (64-byte inputs incl. multiples of L) on arbitrary "
           "byte strings, is_canonical, for both APIs, against integers mod L. Hash-to-group (5000): from_string / from_string_ro for edwards25519 (NU/RO) and ristretto255 with SHA-256 and SHA-512, messages 0..600 "
-          "bytes incl. NULL, contexts empty/NULL/1..255 bytes against RFC 9380, every output checked for prime-order membership; contexts of 256..1000 bytes are a separate sub-property (known finding). A deterministic "
-          "sweep runs every torsion point, every alias and P+T for each T through is_valid_point, scalarmult, scalarmult_noclamp, add and sub. Non-trivial = structured operand; distinct = (build, op, operand bytes)."),
+          "bytes incl. NULL, contexts empty/NULL/1..255 bytes against RFC 9380, every output checked for prime-order membership; contexts of 256..1000 bytes are a separate sub-property (known finding). Solved results: pairs (P, Q) constructed so that the y and, separately, the x coordinate of P+Q / P-Q is a chosen value (just below p, 0..40, saturated 25.5- and 51-bit limb patterns), to reach the final reduction and the sign computation of the encoder. A deterministic "
+          "sweep runs every torsion point, every alias, P+T for each T and all 255 encodings with only the top byte set through is_valid_point, scalarmult, scalarmult_noclamp, add and sub; the generator has a class of encodings with a single non-zero byte. Non-trivial = structured operand; distinct = (build, op, operand bytes)."),
     exhaustive_axes="8 torsion points x aliases and prime+T for each T through all point predicates",
     assumptions=ASSUME_COMMON + ["add/sub with non-canonical aliases: acceptance is unspecified, only the value of an accepted result is asserted"],
 )
@@ -275,7 +275,7 @@ PROPS["C10"] = dict(
     builds=[("asan", "native"), ("asan", "noasm"), ("asan", "noti"), ("asan", "portable"), ("asan", "nosimd")],
     builds_thorough=[("asan", "native"), ("asan", "noasm"), ("asan", "noti"), ("asan", "portable"), ("asan", "nosimd"), ("plain", "native"), ("plain", "portable")],
     level="exploration",
-    rule=("A shared deterministic corpus (pure function of VERIF_SEED) drives harness/apitable.hpp: 60 drivers covering ~290 public deterministic functions (all AEAD forms, MAC/hash one-shot and streaming, KDFs, stream "
+    rule=("A shared deterministic corpus (pure function of VERIF_SEED) drives harness/apitable.hpp: 61 drivers covering ~290 public deterministic functions (all AEAD forms, MAC/hash one-shot and streaming, KDFs, stream "
           "ciphers and cores, secretbox/box incl. NaCl and afternm forms, seal_open, secretstream, X25519, kx, Ed25519 incl. ph and conversions, Edwards/Ristretto group, scalar and hash-to-group functions, comparison/"
           "arithmetic helpers, codecs, padding, Argon2/scrypt raw + verify/needs_rehash), with structured arguments where the backends' input screening could disagree (X25519 low-order / non-canonical / sparse points, stream counters that put the 2^32 carry at a vector-stride boundary, Poly1305 blocks solved for a carry-critical accumulator, Argon2 with more than one address block per segment, every prefix of a hash string) and argument lengths at block boundaries (0,1,15-17,31-33,63-65,127-129,255-257,511-513,1023-1025) and random lengths <= 4 KiB. "
           "(a) in-process, per case: outputs and return codes under every mask of the chain AVX-512F > AVX2 > AVX > SSE4.1 > SSSE3 > SSE3 > none, with AES-NI/PCLMUL off, and under random closed feature subsets must "
@@ -293,7 +293,7 @@ PROPS["C12"] = dict(
     builds_thorough=[("asan", "native"), ("asan", "noasm"), ("asan", "portable"), ("asan", "noti"), ("asan", "nosimd")],
     fuzz=dict(name="fuzz_api", sources=["fuzz/fuzz_api.cpp"], procs=8, runs_quick=25000, time_quick=45, runs_thorough=100000000, time_thorough=900, max_len=64),
     level="exploration",
-    rule=("harness/apitable.hpp drives ~290 public functions (60 drivers; the list of covered names is in the table and the count in the evidence notes). Every input buffer is an exact-size heap block whose surroundings are "
+    rule=("harness/apitable.hpp drives ~290 public functions (61 drivers; the list of covered names is in the table and the count in the evidence notes). Every input buffer is an exact-size heap block whose surroundings are "
           "ASan-poisoned, placed at a generated misalignment 0..15; every output buffer has exactly the documented size; NULL is passed for zero-length optional pointers; decrypt/open/verify paths receive valid inputs "
           "that are then bit-flipped half of the time, codecs and unpad receive attacker-style text, password-hash verifiers receive cost-guarded mutated strings. Enumerated: the first variable length of every driver "
           "takes every value 0..1100 (public-key drivers every 7th, password hashing every 23rd), every third length also pins the second length; the sweep is repeated with every buffer ending right before / starting right after a PROT_NONE page (hardware guard: also catches accesses made by hand-written or inline assembly, which ASan does not instrument), and 2/5 of the random cases use these guard modes; 150000 fully random cases; CPU masks rotate through the whole chain incl. "
@@ -327,7 +327,7 @@ PROPS["C11"] = dict(
     builds=[("cov", "native"), ("cov", "noasm"), ("cov", "portable")],
     builds_thorough=[("cov", "native"), ("cov", "noasm"), ("cov", "portable"), ("cov", "noti")],
     level="exploration",
-    valgrind=dict(name="c11vg", sources=["props/c11vg.cpp"], seeds_quick=2, seeds_thorough=8),
+    valgrind=dict(name="c11vg", sources=["props/c11vg.cpp"], seeds_quick=2, seeds_thorough=8, variants=["native", "noti"]),
     rule=("Metamorphic oracle over generated secret pairs: for fixed public inputs (operation, lengths, nonces, points, buffer addresses) the execution trace - every basic-block edge and every load/store address, "
           "recorded through -fsanitize-coverage=trace-pc-guard,trace-loads,trace-stores callbacks and folded into a rolling hash - must be identical for two secrets. 64 operations: crypto_verify_16/32/64, sodium_memcmp/"
           "compare/is_zero (both operands secret), X25519 and base, Ed25519 seed_keypair / sign / sign_detached / ph final_create / sk_to_curve25519, Edwards and Ristretto scalar multiplication (clamp, noclamp, base), "
@@ -338,7 +338,7 @@ PROPS["C11"] = dict(
           "same message; for comparisons equal vs first-byte / last-byte / random / single-bit difference; scalars {1, 2, L-1, 2^252, sparse, dense, random} (identity results excluded as the property allows); all "
           "marker positions. CPU masks {all, -avx2, -ssse3, none} x builds {native, noasm, portable} make each C backend visible. On divergence both traces are recorded in full and the first differing event is symbolised. "
           "Second monitor for assembly and gcc code generation: about 1300 operation executions per run on the gcc -O2 build under valgrind memcheck with the secret bytes marked undefined (every conditional jump or address "
-          "depending on them is reported; Edwards/Ristretto scalar multiplication, which branches on the public identity-result check, and sodium_pad are excluded there; only this monitor runs password hashing, because its internal allocations make addresses incomparable between two executions: Argon2i through crypto_pwhash at 8 KiB and 1040 KiB, and the data-independent first half of Argon2id - pass 0, slices 0 and 1 - on the ref, SSSE3 and AVX2 block-fill functions through the library's internal entry points). Non-trivial = pair with S1 != S2 (the histogram "
+          "depending on them is reported; alternating by seed between the native build and the build without 128-bit arithmetic (25.5-bit field, donna32 Poly1305), because a branch taken with probability 2^-26 never separates two traces; the public wrappers of Edwards/Ristretto scalar multiplication, which branch on the public identity-result check, and sodium_pad are excluded there, but the cores ge25519_scalarmult / ge25519_scalarmult_base / ristretto255 decode+encode of the secret-dependent result run through the internal entry points; also verify-only (m == NULL) AEAD decryption and MAC verification with secret keys, and secret pairs chosen by result class; only this monitor runs password hashing, because its internal allocations make addresses incomparable between two executions: Argon2i through crypto_pwhash at 8 KiB and 1040 KiB, and the data-independent first half of Argon2id - pass 0, slices 0 and 1 - on the ref, SSSE3 and AVX2 block-fill functions through the library's internal entry points). Non-trivial = pair with S1 != S2 (the histogram "
           "counts pairs with fewer than 20 trace events); distinct = (build, operation, public length, mask, pair class)."),
     assumptions=["decides the binaries produced by clang 14 -O2 (trace monitor) and gcc 12 -O2 (valgrind monitor) from /repo's working tree; hand-written assembly is only visible to the valgrind monitor",
                  "instruction-level timing (variable-latency instructions, micro-architectural effects) is outside the property"],
